@@ -10,7 +10,7 @@ from octoprint_excluderegion.GcodeHandlers import GcodeHandlers
 
 ID = "C20"
 BUDGET = {"quick": 1500, "thorough": 15000}
-PROFILE = gen.profile(retract="matched", reg_events=False, maxlen=25, at_w=3)
+PROFILE = gen.profile(retract="matched", reg_events=False, maxlen=25, at_w=3, ext_w=4)
 RULE = ("A live state history (prefix program: the live state may be mid-episode, in inches, relative, with pending deferred "
         "commands or an owed recovery), then a file built from a generated program: each command line in canonical spelling, "
         "optionally wrapped with N<n>, *<checksum>, trailing blanks and '; comment'; blank, whitespace-only and comment-only "
@@ -43,7 +43,8 @@ def cases(draw):
         prefix += [["g", "G90"], ["g", "G21"], ["g", "G10" if fw else "G1 E%s F1800" % gen.fmt(e - 1.27)],
                    ["g", "G1 X%s Y%s" % (gen.fmt(tx), gen.fmt(ty))], ["g", "G11" if fw else "G1 E%s F1800" % gen.fmt(e)]]
         if not base["config"].get("ext") and draw(st.booleans()):
-            base["config"]["ext"] = {"M106": "merge", "M117": draw(st.sampled_from(["first", "last", "exclude"])), "M204": "last"}
+            base["config"]["ext"] = {"M106": draw(st.sampled_from(["merge", "first"])), "M117": draw(st.sampled_from(["first", "first", "last", "exclude"])),
+                                     "M204": draw(st.sampled_from(["last", "first"]))}
         ext = sorted((base["config"].get("ext") or {}).keys())
         if ext and draw(st.integers(0, 3)) > 0:
             for code in draw(st.lists(st.sampled_from(ext), min_size=1, max_size=3)):
@@ -83,7 +84,17 @@ def cases(draw):
         if i == len(lines) - 1 and draw(st.booleans()):
             e = ""
         text.append(ln + e)
-    return {"config": base["config"], "regions": base["regions"], "prefix": prefix, "lines": text}
+    after = []
+    if draw(st.integers(0, 3)) == 0:
+        # the live print goes on between creating the processor and reading the file: the file is filtered from the state the
+        # processor was created from
+        after = draw(st.lists(st.sampled_from([["g", "G91"], ["g", "G1 X5 Y5"], ["g", "G20"], ["at", "ExcludeRegion", "off"], ["g", "G92 E3"],
+                                               ["g", "G1 X30 Y30 F900"], ["g", "G10"], ["g", "G28 X"], ["at", "ExcludeRegion", "on"]]), min_size=1, max_size=4))
+        if base["regions"] and draw(st.booleans()):
+            rnd2 = gen.Renderer({}, base["regions"], PROFILE, 0.508, False, False)
+            tx, ty = rnd2.target("in", draw(st.integers(0, 3)), draw(st.integers(0, 100)), draw(st.integers(0, 100)))
+            after.append(["g", "G1 X%s Y%s" % (gen.fmt(tx), gen.fmt(ty))])
+    return {"config": base["config"], "regions": base["regions"], "prefix": prefix, "lines": text, "after_create": after}
 
 
 def strategy(tier):
@@ -139,20 +150,31 @@ def run_case(case, strict=False):  # pylint: disable=unused-argument,too-many-lo
                 live.at(item[1], item[2])
         except Exception:  # pylint: disable=broad-except
             pass
-    snap_before = core.state_snapshot(live.state)
+    snap_created = core.state_snapshot(live.state)
     twin_state = copy.deepcopy(live.state)
     twin = GcodeHandlers(twin_state, env.make_logger())
     twin_comm = core.Comm()
     sp = StreamProcessor(io.BytesIO(b""), live.handlers)
+    for item in case.get("after_create") or []:
+        try:
+            if item[0] == "g":
+                live.gcode(item[1])
+            elif item[0] == "at":
+                live.at(item[1], item[2])
+        except Exception:  # pylint: disable=broad-except
+            pass
+    snap_before = core.state_snapshot(live.state)
     last_eol = None
     kinds = set()
     cl = set()
-    if snap_before["excluding"]:
+    if snap_created["excluding"]:
         cl.add("live_state_mid_episode")
-    if snap_before["pending"]:
+    if snap_created["pending"]:
         cl.add("live_state_pending")
-    if snap_before["retraction"] is not None and snap_before["retraction"][3]:
+    if snap_created["retraction"] is not None and snap_created["retraction"][3]:
         cl.add("live_state_owed_recovery")
+    if snap_before != snap_created:
+        cl.add("live_state_moved_on_after_creation")
     for idx, line in enumerate(case["lines"]):
         seen, eol = normalise_line(line)
         if eol:
